@@ -96,7 +96,9 @@ def snapshot(det):
     elif isinstance(ph._array, np.ndarray):
         c["photon"] = {"array_2d": canon(ph.array)}
     else:
-        c["photon"] = {"array_3d": canon(ph.array_3d)}
+        cube = canon(ph.array_3d)
+        # 6b compares dtype, shape, values and coordinates; the DataArray's name and free-form attributes are not data
+        c["photon"] = {"array_3d": {k: v for k, v in cube.items() if k not in ("name", "attrs")}}
     for name in ("pixel", "signal", "image", "phase"):
         if not hasattr(det, "_" + name):
             continue
@@ -892,6 +894,7 @@ def body(ck: common.Check):
         "a charge container nothing was added to (zero array, empty frame), an empty scene and an empty data tree count as uninitialised",
         "the charge container is compared through its public view (`charge.array`, `charge.frame`)",
         "load_detector: `data` = the data containers; geometry, environment, characteristics and the readout clock stay the running detector's",
+        "the name and the free-form attributes of a multi-wavelength photon DataArray are generated but not judged (6b: dtype, shape, values, coordinates)",
         "row labels (the pandas index) of the cluster table are handles, not data: columns and rows are compared, the index is not",
         "a stored detector of another type or shape is outside the statement (refused by the repaired model; compared with the Lean model only)",
     ]
